@@ -25,7 +25,7 @@ Theorem C11_pointer_to_value_plan : forall e cc out f ctx lv s t st p st',
   cc_UseZeroValueOnPointerInconsistency (bc_conf ctx) = true -> cc_UseUnderlyingTypeMethods (bc_conf ctx) = false ->
   (forall id, t <> TNamed id) -> f_Pointer e t = false ->
   build_no_lookup e cc out (S (S f)) ctx lv (TPtr s) t st = GOk (p, st') ->
-  exists q, p = POfAssign t (ASrcPtr q) /\ exists st0, build e cc out f ctx LV_DEREF s t st = GOk (q, st0).
+  exists q, p = POfAssign t (ASrcPtr q) /\ exists st0 st1, b_tab st0 = b_tab st /\ build e cc out f ctx LV_DEREF s t st0 = GOk (q, st1).
 Proof. exact gen_ptr_to_value_with_flag. Qed.
 (* ... and then yields the zero value of U for nil and the conversion of the pointee otherwise *)
 Theorem C11_pointer_to_value_nil : forall e M f t q st,
